@@ -75,6 +75,26 @@ func genCaseA(t *rapid.T) CaseA {
 		c.FetchDelayMs, c.UploadDelay, c.BackendMs = []int{0}, []int{0}, []int{0}
 		return c
 	}
+	if kind == 1 && rapid.IntRange(0, 2).Draw(t, "outstanding") == 0 {
+		// one request stays at the backend for a long time while more than 1000 other requests come and go (never more
+		// than about a hundred outstanding at once); then the proxy, which still has no response for it, lists it again
+		extra := rapid.SampledFrom([]int{1001, 1050}).Draw(t, "others")
+		c.N = extra + 1
+		c.Replies = append(c.Replies, []int{0})
+		for lo := 1; lo <= extra; lo += 100 {
+			var r []int
+			for i := lo; i < lo+100 && i <= extra; i++ {
+				r = append(r, i)
+			}
+			c.Replies = append(c.Replies, r)
+		}
+		c.Replies = append(c.Replies, []int{0}, []int{0})
+		c.GapsMs = []int{30}
+		c.FetchDelayMs, c.UploadDelay = []int{0}, []int{0}
+		c.BackendMs = make([]int, c.N)
+		c.BackendMs[0] = 8000
+		return c
+	}
 	c.N = rapid.IntRange(1, 40).Draw(t, "n")
 	nr := rapid.IntRange(1, 12).Draw(t, "nreplies")
 	for i := 0; i < nr; i++ {
@@ -268,7 +288,9 @@ func runCaseA(t vh.TB, c *CaseA) vh.Outcome {
 	if relisted {
 		o.Classes = append(o.Classes, "id-listed-twice-or-more")
 	}
-	if c.N >= 999 {
+	if c.N > 1000 {
+		o.Classes = append(o.Classes, "request-outstanding-while-1000-others-come-and-go")
+	} else if c.N >= 999 {
 		o.Classes = append(o.Classes, "dedup-window-boundary")
 	} else if c.N > 10 {
 		o.Classes = append(o.Classes, "more-than-10-outstanding")
